@@ -53,3 +53,29 @@ fn kind_mixed_tuple_named_equals_elided() {
     assert!(kind::<SpellMock::tup_named>() == TypeId::of::<Deep<(Owning<u8>, Lending<u8>)>>());
     kani::cover!(true);
 }
+
+#[unimock::unimock(api = Spell2Mock)]
+trait Spell2 {
+    fn str_elided(&self) -> Option<&str>;
+    fn str_named<'s>(&'s self) -> Option<&'s str>;
+    fn slice_elided(&self) -> Result<&[u8], i8>;
+    fn slice_named<'s>(&'s self) -> Result<&'s [u8], i8>;
+    fn two_elided(&self) -> (&u8, &str);
+    fn two_named<'s>(&'s self) -> (&'s u8, &'s str);
+    fn res_both_elided(&self) -> Result<&u8, &i8>;
+    fn res_both_named<'s>(&'s self) -> Result<&'s u8, &'s i8>;
+}
+
+/// Unsized leaves (&str, &[T]), two borrowed slots, both Result arms borrowed.  Not in the catalogue because the macro rejects them at compile time (outside the property's domain
+/// "that the macro accepts"): `Poll<&T>` (both spellings) and `Option<(T, &'s T)>` with the receiver lifetime written out.
+//@K props=C17 tier=quick label=inst feat=ext fn=#[unimock]::output-kind(Option<&str>,Result<&[T],E>,(&T,&str),Result<&T,&E>;elided|named)
+#[kani::proof]
+fn kind_named_equals_elided_more_shapes() {
+    assert!(kind::<Spell2Mock::str_elided>() == kind::<Spell2Mock::str_named>());
+    assert!(kind::<Spell2Mock::slice_elided>() == kind::<Spell2Mock::slice_named>());
+    assert!(kind::<Spell2Mock::two_elided>() == kind::<Spell2Mock::two_named>());
+    assert!(kind::<Spell2Mock::res_both_elided>() == kind::<Spell2Mock::res_both_named>());
+    assert!(kind::<Spell2Mock::str_named>() != TypeId::of::<Owning<Option<&'static str>>>());
+    assert!(kind::<Spell2Mock::slice_named>() != TypeId::of::<Owning<Result<&'static [u8], i8>>>());
+    kani::cover!(true);
+}
